@@ -373,4 +373,22 @@ theorem iterQ_vs_plain (S : Shape) (hS : WF S) (c : Cfg) (trig : Trig) (st : BSt
     simp only [iterQ]
     exact iter_eq_plain S hS c trig st q p hp hout
 
+/-! ### a queue that reports a size but has no head -/
+
+/-- `Size()` says non-empty, `Head()` and `Pop()` answer `ErrQueueEmpty` -/
+def SpuriousEmpty (i : In) : Prop := (∃ n, i.size = some (n + 1)) ∧ i.head = .empty ∧ i.pop = .empty
+
+theorem iter_spurious (S : Shape) (hS : WF S) (c : Cfg) (trig : Trig) (st : BState) (i : In)
+    (hsp : SpuriousEmpty i) (hnb : inBackoff S st i.now1 = false) :
+    (iter S c trig st i).armed = c.R ∧ (iter S c trig st i).dispatched = none ∧ (iter S c trig st i).st = st := by
+  obtain ⟨⟨n, hn⟩, hh, hp⟩ := hsp
+  obtain ⟨e1, _, _, _, e5⟩ := iter_fields S c trig st i
+  have hf : (fetch S c trig i).dispatched = none ∧ (fetch S c trig i).retErr = false := by
+    simp [fetch, hp, hS.2.2.2.2.2.2.2.2.2.1]
+  refine ⟨?_, ?_, ?_⟩
+  · rw [iter_armed]
+    simp [chooseArm, hn, hnb, hS.2.2.2.2.1, calcNextTick, hh, hS.2.2.2.2.2.2.1]
+  · rw [e1, hf.1]; simp
+  · rw [e5, hf.2, afterTick_noErr S c st _ hS]; simp
+
 end Faults
